@@ -220,6 +220,7 @@ def give_it_a_past(cube, funcs, k, poolsize):
         pass
     finally:
         cube.check_interrupt = None
+        build.reap_real_pools()
     return seen[0] > k
 
 
